@@ -368,7 +368,7 @@ def _spy_repeat(ln, rate, d):
         aio.np = saved
     if not (isinstance(r, tuple) and r[0] == 'slice' and r[1] == 0):
         return 'SPY-NA'
-    return [stub.k, r[2]]
+    return min(stub.k * ln, r[2])    # the observable: length of the result (not how many copies were made)
 
 
 def impl(case):
@@ -473,6 +473,8 @@ def model_output(case, m):
         return [_optz(o) for o in m]
     if op == 'wav':
         return _res(m, lambda v: [v[0], [_canon_me(p) for p in v[1]]])
+    if op == 'rep_len':
+        return _res(m, lambda v: min(v[0] * case['input'][0], v[1]))
     return _res(m)
 
 
@@ -558,11 +560,9 @@ def oracle(case, io):
                 return {'kind': 'repeat-raises', 'exc': io[1], 'len': ln, 'rate': rate, 'duration': d,
                         'expected_samples': int(d * rate), 'zero_duration': d == 0.0}
             return None
-        k, stop = io[1]
         n = int(d * rate)
-        if stop != n or k * ln < n:
-            return {'kind': 'repeat-wrong-length', 'len': ln, 'rate': rate, 'duration': d, 'copies': k,
-                    'got_len': min(k * ln, stop), 'want_len': n}
+        if io[1] != n:
+            return {'kind': 'repeat-wrong-length', 'len': ln, 'rate': rate, 'duration': d, 'got_len': io[1], 'want_len': n}
         return None
     if op == 'stereo':
         dl, dr, l, r = a
@@ -619,7 +619,7 @@ def nontrivial(case, io):
     if op == 'wav':
         return len(a[0]) > 0
     if op == 'rep_len':
-        return io[1][0] > 1
+        return io[1] > a[0]
     return True
 
 
